@@ -100,6 +100,9 @@ MUTATIONS = {
         ('reflection', 'tonic-reflection/src/server/mod.rs', r'for en in &msg\.enum_type \{', 'for en in msg.enum_type.iter().skip(1) {', 'first nested enum skipped (unsupported construct: must not alarm)'),
     ],
     'C17': [
+        ('webservice', 'tonic-web/src/client.rs', r'r\.map\(GrpcWebCall::client_response\)', 'r.map(GrpcWebCall::client_request)', 'response body wrapped in the ENCODING adapter'),
+        ('webservice', 'tonic-web/src/client.rs', r'\*req\.version_mut\(\) = Version::HTTP_11;', '*req.version_mut() = Version::HTTP_10;', 'request coerced to HTTP/1.0'),
+        ('webservice', 'tonic-web/src/call.rs', r'Self::new_client\(inner, Direction::Decode, Encoding::None\)', 'Self::new_client(inner, Direction::Decode, Encoding::Base64)', 'client response decoded as base64 text'),
         ('webclient', 'tonic-web/src/call.rs', r'len \+= msg_len as usize \+ 4 \+ 1;', 'len += msg_len as usize + 4;', 'frame walk skips one byte too few'),
     ],
     'C12': [
